@@ -3,6 +3,7 @@ package printer
 import (
 	"fmt"
 	"strings"
+	"unicode/utf8"
 
 	"reflect"
 
@@ -163,11 +164,20 @@ func join(str []string, sep string) string {
 }
 
 // quoteString prints s as a GraphQL StringValue: only the escapes the
-// lexer understands (\" \\ \b \f \n \r \t and \uXXXX) are produced.
+// lexer understands (\" \\ \b \f \n \r \t and \uXXXX) are produced, and
+// every byte of s that is not part of a valid UTF-8 sequence is kept.
 func quoteString(s string) string {
 	var b strings.Builder
 	b.WriteByte('"')
-	for _, r := range s {
+	for i, r := range s {
+		if r == utf8.RuneError {
+			if _, w := utf8.DecodeRuneInString(s[i:]); w == 1 {
+				// a byte that is not valid UTF-8: the lexer reads such a byte
+				// as it stands, so it is written as it stands (not as U+FFFD)
+				b.WriteByte(s[i])
+				continue
+			}
+		}
 		switch r {
 		case '"':
 			b.WriteString(`\"`)
